@@ -162,3 +162,23 @@ def fx(ctx, qual):
     """the fixture function vfix::<qual> (None + broken obligation if the fixtures unit was not extracted)"""
     fs = [f for f in ctx.prog.find("vfix::" + qual) if f.has_cfg]
     return fs[0] if fs else None
+
+
+def share(ctx, module, rules, as_rule, what, minimum):
+    """re-evaluate `rules` of another property's module inside this check and book their obligations under `as_rule`
+    (the same structural fact is a necessary condition of both properties). Only the check that owns ctx.prop does it,
+    so shared modules do not recurse."""
+    import importlib
+    if getattr(ctx, "_sharing", False):
+        return
+    mod = importlib.import_module("rules." + module)
+    sub = type(ctx)(ctx.prop, ctx.prog, ctx.tier)
+    sub._sharing = True
+    mod.run(sub)
+    n = 0
+    for o in sub.obs:
+        if o.rule in rules:
+            n += 1
+            o.rule = as_rule
+            ctx.obs.append(o)
+    ctx.need(as_rule, what, n, minimum)
